@@ -580,7 +580,10 @@ class Harness:
                     self._viol("%s: get(%r) %s but the model says the key is %s" % (when, key, "returned %r" % (got,) if gp else "raised KeyError", "present (%r)" % (exp,) if present else "absent"))
                 if present and not _same(norm_tree(got), exp):
                     self._viol("%s: get(%r) = %r, expected %r" % (when, key, got, exp))
-                d = qc.get(key, default=MISSING)
+                try:
+                    d = qc.get(key, default=MISSING)
+                except Exception as e:  # noqa: BLE001 - an observation may not raise when a default is given
+                    self._viol("%s: get(%r, default=...) raised %s: %s" % (when, key, type(e).__name__, e))
                 if (d == MISSING) == present and not (present and exp == MISSING):
                     self._viol("%s: get(%r, default) inconsistent with get(%r)" % (when, key, key))
         # whole-store comparison: no stray or dropped keys anywhere (siblings survive)
